@@ -105,9 +105,10 @@ class TracingLock:
 
     def acquire(self, blocking=True, timeout=-1):
         me = threading.get_ident()
-        if me not in self.users:
-            self.users.add(me)
-            self.sched.rec.log(self.sched.name(), "uses", self.lk)
+        who = self.sched.name()     # (not the thread ident: a finished thread's ident is handed out again)
+        if who not in self.users:
+            self.users.add(who)
+            self.sched.rec.log(who, "uses", self.lk)
         if self.owner == me and self.depth >= (1 if self.sched.name().startswith("r") else 2):
             # a snapshot operation may nest acquisitions of the re-entrant lock (e.g. TypedTree.save -> Tree.save):
             # the protocol steps are a reader's OUTERMOST acquire / release and, for the owner's nested snapshot
